@@ -26,7 +26,7 @@ COMPONENTS = {
 
 
 def gen_case(tp, tier):
-    feat = {'tempo_clocks': True, 'sends': True, 'bind': True,
+    feat = {'tempo_clocks': True, 'sends': True, 'bind': True, 'embed': True,
             'odd_deltas': tp.draw(3) == 0}
     prog = rprog.gen(tp, feat, tier)
     # main-thread sends (outside any routine), interleaved with sleeps
